@@ -12,6 +12,7 @@ def pr (l : List (Nat × Nat)) : List String := l.map fun (a, b) => s!"{nm a}::{
 
 def recordedHoldExtraction : List (Nat × Nat) :=
   [(Sym.Box, Sym.Guard), (Sym.Vec, Sym.Guard), (Sym.Box, Sym.ReadGuard), (Sym.Vec, Sym.ReadGuard)]
+def recordedDebugHolds : List (Nat × Nat) := [(Sym.Mutex, Sym.fmt), (Sym.RwLock, Sym.fmt)]
 def recordedClosures : List (Nat × Nat) :=
   [Sym.BoxedLockCollection, Sym.OwnedLockCollection, Sym.RefLockCollection, Sym.RetryingLockCollection,
    Sym.Poisonable].flatMap (fun t =>
@@ -27,6 +28,9 @@ def report : List (String × String × List String × List String) :=
     ("C14", "Keyable not sealed", c14_keyableSealing.map nm, []),
     ("C14", "safe public acquiring function without a key parameter", pr c14_acquiringWithoutKey, []),
     ("C14", "key lent out by reference or returned without taking one", pr c14_keyLeaks, []),
+    ("C14,C01,C17", "Debug::fmt takes a lock without a key and runs the payload's Debug while holding (D13)",
+      pr (c14_debugHoldsWithoutKey.filter fun x => !recordedDebugHolds.contains x),
+      pr (c14_debugHoldsWithoutKey.filter fun x => recordedDebugHolds.contains x)),
     ("C14", "safe public accessor to the raw lock", pr c14_rawAccessors, []),
     ("C14", "guard type lets holds be moved out through &mut (D6)",
       pr (c14_holdExtraction.filter fun x => !recordedHoldExtraction.contains x),
